@@ -10,6 +10,9 @@ use crate::{
     type_checker::type_checker_context::{TypeCheckerContext, WithType},
 };
 
+/// Largest number of elements a range may be expanded to.
+const MAX_RANGE_LEN: i64 = 10_000_000;
+
 #[derive(Debug, Serialize, Clone)]
 pub struct NumericRange {}
 
@@ -25,6 +28,22 @@ impl RoocFunction for NumericRange {
                 let from = from.as_integer_cast(context, fn_context)?;
                 let to = to.as_integer_cast(context, fn_context)?;
                 let to_inclusive = to_inclusive.as_boolean(context, fn_context)?;
+                // the range is materialised: refuse sizes that can only exhaust memory
+                // (or overflow the allocation size) instead of aborting the process
+                let len = (to as i128) - (from as i128) + i128::from(to_inclusive);
+                if len > MAX_RANGE_LEN as i128 {
+                    return Err(TransformError::TooLarge {
+                        got: len.min(i64::MAX as i128) as i64,
+                        max: MAX_RANGE_LEN,
+                        message: format!(
+                            "A range can have at most {} elements, {}..{}{} has more",
+                            MAX_RANGE_LEN,
+                            from,
+                            if to_inclusive { "=" } else { "" },
+                            to
+                        ),
+                    });
+                }
                 if from >= 0 && to >= 0 {
                     let from = from as usize;
                     let to = to as usize;
